@@ -122,7 +122,19 @@ class OrdEval:
 
 
 def run(ck: Check, repo: Repo) -> None:
-    ck.not_decided += ["faithfulness of each copy (C01)", "behaviour under ties beyond 'one of the maxima'", "the random draws themselves"]
+    # "every other member is a faithful copy": the structural conditions of a faithful copy are the C01 obligations; they are taken over here
+    # (the nested Check is run first because it resets the per-run pattern environments; findings already recorded under C01 are reported there only)
+    from dataclasses import replace
+    from . import c01
+    sub = Check("C01", ck.tier, ck.repo_root)
+    c01.run(sub, repo)
+    ck.rule("C05.7", "the members of the new population are faithful copies: every structural condition of a faithful, independent clone holds "
+                     "(all obligations of the C01 check, shared; open C01 findings are reported under C01 only)")
+    taken = [replace(o, rule="C05.7") for o in sub.obs if o.status != "known"]
+    if len(taken) < 60:
+        raise AnalysisError(f"C05.7: only {len(taken)} obligations taken over from C01")
+    ck.obs.extend(taken)
+    ck.not_decided += ["equality of the copies' outputs as numbers (C01's not-decided list applies)", "behaviour under ties beyond 'one of the maxima'", "the random draws themselves"]
     ck.trusted += ["numpy: argsort is ascending; argsort of a permutation is its inverse (ranks); argmax returns the position of a maximum"]
     ck.rule("C05.1", "the elite is the arg-max of the mean of the last eval_loop scores (ordering algebra over argsort/argmax/[-1])")
     ck.rule("C05.2", "a tournament draws tournament_size indices from [0, population) and returns the best-ranked of the drawn indices")
